@@ -179,6 +179,11 @@ impl TxGen<'_, '_> {
     }
 
     fn value(&mut self, node: usize) -> Vec<u8> {
+        // mostly unique values (a leaked or lost write is then attributable); sometimes one of a few
+        // constants, so that a key is set back to exactly the value it had before (V -> W -> V)
+        if self.g.chance(1, 3) {
+            return self.g.pick(&[&[1u8][..], &[2], &[1, 1]]).to_vec();
+        }
         self.wcount = self.wcount.wrapping_add(1);
         vec![self.txno, node as u8, self.wcount]
     }
